@@ -74,6 +74,10 @@ CASES = {
         tasks=[task("productionTask", [("parallel", [("tA", [], []), ("tB", [], [])])]),
                task("tA", [svc("S1")]), task("tB", [svc("S2")])],
         vals=[val()], order="fifo", react=[None, None, None, None, None, 0] + [None] * 20, react_all=True),
+    "D25-reentrant-extra-listener": dict(
+        finding="D25-reentrant-extra-listener", properties=["C20", "C17", "C14"],
+        tasks=[task("productionTask", [loop("i", ("int", 2), [svc("S1")])])],
+        vals=[val()], order="fifo", imm=[True] + [False] * 39, pre_script=[("register", "SS", 1)]),
     # ---- defects repaired by fix: commits (a failure here is an ordinary violation) ----
     "D1-parloop-zero": dict(
         fixed="D1", properties=["C06", "C01", "C09"],
@@ -123,7 +127,7 @@ CASES = {
 
 def build(name, spec):
     prog = {"structs": STRUCTS, "tasks": spec["tasks"]}
-    case = {"prog": prog, "vals": spec["vals"] + [gen_run.FINAL_VALUATION], "imm": [False] * 40,
+    case = {"prog": prog, "vals": spec["vals"] + [gen_run.FINAL_VALUATION], "imm": spec.get("imm", [False] * 40),
             "react": spec.get("react"), "react_all": spec.get("react_all", False)}
     test_ids = spec.get("test_ids", True)
     mutate = spec.get("mutate", False)
@@ -133,7 +137,7 @@ def build(name, spec):
     run = impl_run.ImplRun(text, case["vals"], case["imm"], test_ids=test_ids, mutate=mutate,
                            react=case["react"], react_all=case["react_all"])
     assert run.valid, run.stdout
-    script = [("start",)]
+    script = list(spec.get("pre_script", [])) + [("start",)]
     pending = []
     exc = None
 
@@ -144,6 +148,8 @@ def build(name, spec):
             if e[0] == "notif" and e[1] == 0 and e[2] == "SF" and e[5] in pending:
                 pending.remove(e[5])
     try:
+        for op in spec.get("pre_script", []):
+            run.call(op)
         note(run.call(("start",)))
         n = 0
         while pending and n < 60:
